@@ -41,6 +41,7 @@ from returns.result import safe, Success, Result, Failure
 from isla import __version__ as isla_version, language
 from isla.derivation_tree import DerivationTree
 from isla.helpers import (
+    def_used_nonterminals,
     is_float,
     Maybe,
     get_isla_resource_file_content,
@@ -766,6 +767,16 @@ def parse_grammar(
                     file=stderr,
                 )
                 sys.exit(USAGE_ERROR)
+
+        defined_nonterminals, used_nonterminals = def_used_nonterminals(grammar)
+        undefined_nonterminals = (used_nonterminals or set()) - (
+            defined_nonterminals or set()
+        )
+        if undefined_nonterminals:
+            raise ValueError(
+                "the grammar has no rules for "
+                + ", ".join(sorted(undefined_nonterminals))
+            )
 
     except Exception as exc:
         exc_string = str(exc)
